@@ -99,6 +99,20 @@ fn gen_history(p: &mut Prng, arch: Arch, n_ops: usize) -> Hist {
     for m in &mods {
         addrs.extend(interesting_addrs(m));
     }
+    // addresses that agree with a module address in their low 48 (or 32) bits: another address
+    // space half, a five-level-paging user address, a 4 GiB multiple away
+    if p.chance(1, 3) && !addrs.is_empty() {
+        for _ in 0..4 {
+            let a = *p.pick(&addrs);
+            let alias = match p.below(4) {
+                0 => a ^ (1 << 48),
+                1 => a ^ (0xffff << 48),
+                2 => a ^ (1 << 32),
+                _ => a.wrapping_add(p.below(3).wrapping_add(1) << 48),
+            };
+            addrs.push(alias);
+        }
+    }
     let n_slots = cache_entry_count();
     // consistent use of each lookup address as ip or as return address
     let mut kind: BTreeMap<u64, bool> = BTreeMap::new();
@@ -683,6 +697,18 @@ pub fn run_history<H: ArchH>(rep: &mut Report, h: &Hist, hist_id: u64, all_gens:
                     if it != manual {
                         add_oracle(rep, &["C17"], if via_trait { "fallible-iterator-differs-from-fold" } else { "iterator-differs-from-fold" },
                             format!("iterator: {it} ; repeated unwind_frame: {manual}"), context_of(&lines, here), &ans);
+                        // C11: a walk that failed must not be reported as complete when polled
+                        // again (repeated unwind_frame keeps failing / goes on, it does not say
+                        // "end of stack")
+                        let iv: Vec<&str> = it.split(',').collect();
+                        let mv: Vec<&str> = manual.split(',').collect();
+                        if let Some(k) = iv.iter().position(|x| x.starts_with("err")) {
+                            if iv.get(k + 1) == Some(&"none") && mv.get(k + 1).map_or(false, |x| *x != "none") {
+                                add_oracle(rep, &["C11"], "end-of-stack-reported-after-an-error",
+                                    format!("after {} the iterator reports Ok(None) although no root marker was reached (repeated unwind_frame: {manual})", iv[k]),
+                                    context_of(&lines, here), &ans);
+                            }
+                        }
                     }
                 }
                 // C10: across the caller frames (states[0] is the interrupted first frame, whose
